@@ -20,7 +20,7 @@ func init() {
 		"C07-accept (a failing Accept that is not the shutting-down case has a path back to the accept loop), C07-noexit (no os.Exit / log.Fatal / runtime.Goexit / undischarged explicit panic reachable from connection or request goroutines), " +
 		"C07-contained (connection/request goroutines never cancel the server context or close the listener), C07-lockbalance (every Unlock/RUnlock, explicit or deferred, finds its mutex locked on every path: unlocking an unlocked mutex is a fatal error no recover() contains). Decides fencing and survival of the accept loop; does not decide that bystanders receive correct answers."
 	Descriptions["C11"] = "Necessary structural condition for bounded Stop: C11-sites (blocking socket I/O sites on connection/request goroutines enumerated), " +
-		"C11-accounting (every connWg.Add is matched by a Done on every path, rules C12-done-last / C12-add-vs-wait), C11-waker-lifetime (a watcher goroutine that can be told to stop is told so only after (*conn).close has waited for the handlers), C11-waker (some code that runs asynchronously to those goroutines closes or deadlines every connection's socket once shutdownCtx is cancelled, and it is started for every accepted connection before its first read), " +
+		"C11-lockrelease (every Lock/RLock in gldap is released on every path to the function's exit), C11-accounting (every connWg.Add is matched by a Done on every path, rules C12-done-last / C12-add-vs-wait), C11-waker-lifetime (a watcher goroutine that can be told to stop is told so only after (*conn).close has waited for the handlers), C11-waker (some code that runs asynchronously to those goroutines closes or deadlines every connection's socket once shutdownCtx is cancelled, and it is started for every accepted connection before its first read), " +
 		"C11-stop-order (listener.Close and cancel precede connWg.Wait), C11-run-nil (shutdown exits of Run return nil), C11-nolock (connection goroutines never take Server.mu, which Stop holds across Wait). The time bound itself is not decided."
 	Descriptions["C17"] = "C17-guard (every store of true to Server.listenerReady is control-dependent on net.Listen's error being nil), C17-who (the flag is written only in Run (true) / Stop (false), under Server.mu), " +
 		"C17-errors (no error return of Run before or at the listen failure follows a store of true), C17-getter (Ready returns the field under the lock). Kernel-level accept behaviour is not decided."
@@ -367,8 +367,38 @@ func checkC18(c *Ctx) {
 		x, _, ok := an.NilCheck(v)
 		return ok && isCfgLoad2(x)
 	})
+	// several tests of the option may exist (one may only log): the one that matters is the one whose
+	// "configured" branch holds the store (or helper call) that installs the TLS listener
+	if len(guards) > 1 {
+		var sel []condIf
+		for _, gd := range guards {
+			v, _ := an.Not(gd.If.Cond)
+			_, trueMeansNil, _ := an.NilCheck(v)
+			withTLS := succOn(gd.If, trueMeansNil == gd.Neg)
+			holds := false
+			an.Instrs(run, func(in ssa.Instruction) {
+				if !withTLS.Dominates(in.Block()) {
+					return
+				}
+				switch x := in.(type) {
+				case *ssa.Store:
+					if _, ok := fieldAddr(x.Addr, G, "Server", "listener"); ok {
+						holds = true
+					}
+				case *ssa.Call:
+					if f := an.StaticCallee(x.Common()); f != nil && partOfRun(f) && f != run && len(fieldStores([]*ssa.Function{f}, G, "Server", "listener")) > 0 {
+						holds = true
+					}
+				}
+			})
+			if holds {
+				sel = append(sel, gd)
+			}
+		}
+		guards = sel
+	}
 	if len(guards) != 1 {
-		R.Fail("C18-wrap", "(*Server).Run: TLS listener installed when configured", c.pos(m.accept), sprintf("expected one `opts.withTLSConfig != nil` test, found %d", len(guards)))
+		R.Fail("C18-wrap", "(*Server).Run: TLS listener installed when configured", c.pos(m.accept), sprintf("expected one `opts.withTLSConfig != nil` test guarding the TLS wrap, found %d", len(guards)))
 	} else {
 		gd := guards[0]
 		v, _ := an.Not(gd.If.Cond)
@@ -420,9 +450,9 @@ func checkC18(c *Ctx) {
 		if wrapStore == nil || wrapAt == nil {
 			R.Fail("C18-wrap", "(*Server).Run: TLS listener installed when configured", c.pos(gd.If), "no store of tls.NewListener(...) into s.listener")
 		} else {
-			if w := an.Search(an.Point{B: withTLS, I: 0}, isInstr(m.accept), isInstr(wrapAt)); w != nil {
+			if w := an.SearchCorr(an.Point{B: withTLS, I: 0}, isInstr(m.accept), isInstr(wrapAt), nil); w != nil {
 				R.Fail("C18-wrap", "(*Server).Run: TLS listener installed when configured", c.pos(wrapStore), "with a TLS config a path reaches Accept without installing the TLS listener: "+c.trail(w))
-			} else if an.Search(an.Entry(run), isInstr(m.accept), isInstr(gd.If)) != nil {
+			} else if an.SearchCorr(an.Entry(run), isInstr(m.accept), isInstr(gd.If), nil) != nil {
 				R.Fail("C18-wrap", "(*Server).Run: TLS listener installed when configured", c.pos(gd.If), "a path reaches Accept without testing for a TLS config")
 			} else {
 				R.OK("C18-wrap", "(*Server).Run: TLS listener installed when configured", c.pos(wrapStore), "every path with withTLSConfig != nil stores the TLS listener into s.listener before the first Accept")
@@ -1524,6 +1554,35 @@ func checkC11(c *Ctx) {
 						}
 					})
 				}
+				// stop channel = Done() of a context made by context.WithCancel: its cancel function is what fires it
+				if dc, ok := ch.(*ssa.Call); ok && dc.Common().IsInvoke() && dc.Common().Method.Name() == "Done" {
+					if ex, ok := an.StripX(dc.Common().Value).(*ssa.Extract); ok && ex.Index == 0 {
+						if wc, ok := ex.Tuple.(*ssa.Call); ok && an.CalleeIs(wc.Common(), "context", "WithCancel") {
+							for _, f := range shipped {
+								for _, ci := range an.Calls(f) {
+									cc := ci.Common()
+									if cc.IsInvoke() || cc.StaticCallee() != nil {
+										continue
+									}
+									cex, ok := an.StripX(cc.Value).(*ssa.Extract)
+									if !ok || cex.Tuple != ssa.Value(wc) || cex.Index != 1 {
+										continue
+									}
+									n++
+									okLate := false
+									switch x := ci.(type) {
+									case *ssa.Call:
+										okLate = f == m.teardown && an.InstrDominates(m.closeCall, x)
+									case *ssa.Defer:
+										okLate = f == m.connFn && m.tdDefer != nil && an.InstrDominates(x, m.tdDefer)
+									}
+									R.Check(okLate, "C11-waker-lifetime", key, c.pos(ci), "the watcher's context is cancelled only after (*conn).close, which waits for the handlers, has returned",
+										"the shutdown watcher's context is cancelled before (*conn).close has waited for the connection's handlers: a later Stop() no longer arms the write deadline for a handler blocked in a write")
+								}
+							}
+						}
+					}
+				}
 				if n == 0 {
 					R.OK("C11-waker-lifetime", key, c.pos(sel), "nothing ever fires the stop channel: the watcher lives until shutdown")
 				}
@@ -1550,6 +1609,10 @@ func checkC11(c *Ctx) {
 		}
 		R.Floor("C11-accounting", 2)
 	}
+
+	// ---- C11-lockrelease: a mutex of gldap that stays locked blocks the goroutines Stop waits for (or Stop itself)
+	c.checkLockRelease("C11-lockrelease", shipped, "every later user of the mutex blocks for ever, and with it the connection goroutine Stop() waits for")
+	R.Floor("C11-lockrelease", 4)
 
 	// ---- C11-stop-order
 	c.checkStopOrder("C11-stop-order", m)
@@ -1666,6 +1729,28 @@ func (c *Ctx) isShutdownErrAtom(v ssa.Value) bool {
 }
 
 // condIfOf returns the If instruction branching on cond (possibly negated).
+// condIfsOf lists every If that branches on cond (possibly through negations).
+func condIfsOf(cond ssa.Value) []*ssa.If {
+	var out []*ssa.If
+	var visit func(v ssa.Value)
+	visit = func(v ssa.Value) {
+		refs := v.Referrers()
+		if refs == nil {
+			return
+		}
+		for _, r := range *refs {
+			switch x := r.(type) {
+			case *ssa.If:
+				out = append(out, x)
+			case *ssa.UnOp:
+				visit(x)
+			}
+		}
+	}
+	visit(cond)
+	return out
+}
+
 func condIfOf(cond ssa.Value) *ssa.If {
 	var out *ssa.If
 	var visit func(v ssa.Value)
